@@ -49,6 +49,7 @@ type enumMesh struct {
 	iterate func(f func(id int))
 	sorted  func(f func(id int), less func(a, b int) bool)
 	copyIDs func(deep bool) []int
+	derive  func() string // MeshToCollider / MeshToSDF of the shared mesh (they group a face list)
 	mapc    func(f func()) string
 	verts   func(f func(v string))
 }
@@ -81,6 +82,13 @@ func enumMesh3(ts []*model3d.Triangle, desc string) *enumMesh {
 			}
 			sort.Ints(out)
 			return out
+		},
+		derive: func() string {
+			lo, hi := m.Min(), m.Max()
+			ray := &model3d.Ray{Origin: lo.Sub(model3d.XYZ(1, 0.5, 0.25)), Direction: hi.Mid(lo).Add(model3d.XYZ(0.013, 0.007, 0.003)).Sub(lo.Sub(model3d.XYZ(1, 0.5, 0.25)))}
+			n := model3d.MeshToCollider(m).RayCollisions(ray, nil)
+			sdf := model3d.MeshToSDF(m)
+			return fmt.Sprintf("%d/%s%s", n, hx(sdf.SDF(lo.Mid(hi))), hx(sdf.SDF(hi.Add(model3d.XYZ(0.5, 0.25, 0.125)))))
 		},
 		mapc: func(f func()) string {
 			return meshDigest(m.MapCoords(func(c model3d.Coord3D) model3d.Coord3D {
@@ -130,6 +138,13 @@ func enumMesh2(ss []*model2d.Segment, desc string) *enumMesh {
 			}
 			sort.Ints(out)
 			return out
+		},
+		derive: func() string {
+			lo, hi := m.Min(), m.Max()
+			ray := &model2d.Ray{Origin: lo.Sub(model2d.XY(1, 0.5)), Direction: hi.Mid(lo).Add(model2d.XY(0.013, 0.007)).Sub(lo.Sub(model2d.XY(1, 0.5)))}
+			n := model2d.MeshToCollider(m).RayCollisions(ray, nil)
+			sdf := model2d.MeshToSDF(m)
+			return fmt.Sprintf("%d/%s%s", n, hx(sdf.SDF(lo.Mid(hi))), hx(sdf.SDF(hi.Add(model2d.XY(0.5, 0.25)))))
 		},
 		mapc: func(f func()) string {
 			return mesh2Digest(m.MapCoords(func(c model2d.Coord) model2d.Coord {
@@ -184,7 +199,7 @@ func enumFaces2(rng *rand.Rand) ([]*model2d.Segment, string) {
 // enumOp is one read-only enumeration.  Gate events: every call of the visiting callback, and
 // (gateCmp) every call of the comparison function -- both are the caller's code.
 type enumOp struct {
-	kind    string // iter sorted copy deepcopy mapcoords verts
+	kind    string // iter sorted copy deepcopy mapcoords verts derive
 	key     []int  // sorted: a total order on the face ids (a permutation)
 	keyDesc string
 	gateCmp bool
@@ -203,7 +218,7 @@ func (o enumOp) String() string {
 
 func newEnumOp(rng *rand.Rand, n int, kind string) enumOp {
 	if kind == "" {
-		kind = []string{"iter", "sorted", "sorted", "sorted", "copy", "deepcopy", "mapcoords", "verts"}[rng.Intn(8)]
+		kind = []string{"iter", "sorted", "sorted", "sorted", "copy", "deepcopy", "mapcoords", "verts", "derive"}[rng.Intn(9)]
 	}
 	o := enumOp{kind: kind}
 	if kind == "sorted" {
@@ -256,6 +271,8 @@ func (o enumOp) run(m *enumMesh, g *gate) string {
 		return "copy" + fmt.Sprint(m.copyIDs(false))
 	case "deepcopy":
 		return "deepcopy" + fmt.Sprint(m.copyIDs(true))
+	case "derive":
+		return "derive" + m.derive()
 	case "mapcoords":
 		return "mapcoords" + m.mapc(g.event)
 	default:
